@@ -50,10 +50,36 @@ def make_specs(ctx: Ctx, n):
     return specs
 
 
+def known_finding_d7(ctx, res):
+    """D7 (known_findings.json): an additional target that depends on parameters only.  The stored shape is
+    re-run; while it still fails the same way it is reported as KNOWN-FINDING, never as a violation."""
+    from .. import drive, tlc
+    from ..core import add_violation, load_known
+
+    ent = next((k for k in load_known(ctx.prop) if k["id"] == "D7" and k["status"] == "known"), None)
+    if ent is None:
+        return
+    rng = ctx.rng("d7")
+    m = gen.rand_model(rng, {"p_param_only_aux": 1.0, "p_w": 1.0, "p_c": 1.0, "T": [2], "max_cells": 300})
+    init = qinit(gen.rand_initial_states(rng, m, 2))
+    spec = mk_spec(10**6, m, ["c13"], [{"op": "simulate", "target": "solve_and_simulate", "init": init, "seed": 1, "vsrc": "own",
+                                        "targets": ["bonus"]}], label="D7 reproducer")
+    case = drive.run_cases([spec], nproc=1)[0]
+    v = tlc.validate_traces("TracePipeline", [case], nproc=1)[0][case["cid"]]
+    if v["v"][0] == "FAIL":
+        err = next((e for e in case["events"] if e["e"] == "error"), {})
+        if v["v"][1] == ent["match"]["clause"] and err.get("cls") == ent["match"]["cls"] and ent["match"]["msg"] in err.get("msg", ""):
+            res.known.append(f"D7: additional target 'bonus' depends on parameters only: {err.get('cls')}: {err.get('msg', '')[:80]}")
+        else:
+            add_violation(ctx, res, v["v"][1], {"kind": "pipeline", "property": ctx.prop, "spec": spec, "case": case, "verdict": v},
+                          f"D7 reproducer fails differently: {v['v'][2][:200]}")
+
+
 def run(ctx: Ctx) -> Result:
     res = Result(ctx.prop)
     specs = make_specs(ctx, ctx.n(80, 1200))
     run_pipeline(ctx, res, specs, nontrivial=lambda s: bool(s["plan"][0].get("targets")))
+    known_finding_d7(ctx, res)
     finalize_cov(res, "seeded random models (5 strata), 1/2/5 agents, T in 1..3, random subsets of the legal additional "
                       "targets (auxiliary functions, utility, constraints, deterministic transitions); non-trivial = at "
                       "least one additional target")
